@@ -1,16 +1,19 @@
 package props
 
 import (
+	"bufio"
 	"bytes"
 	"context"
 	"encoding/binary"
 	"fmt"
 	"io"
+	"reflect"
 	"runtime"
 	"strings"
 	"sync"
 	"sync/atomic"
 	"time"
+	"unsafe"
 
 	"nhooyr.io/websocket"
 	"nhooyr.io/websocket/wsjson"
@@ -39,7 +42,7 @@ func init() {
 		CaseTimeout: 150 * time.Second,
 		ChildSetup:  c07Setup,
 		Require: func(tier string) map[string]int64 {
-			return map[string]int64{"granules_verified": 200000, "pool_puts_monitored": 2000, "pool_objects_reused": 300, "dictionary_probes_sent": 100, "reads_after_end_of_message": 100, "closes_mid_compressed_message": 100}
+			return map[string]int64{"granules_verified": 200000, "pool_puts_monitored": 2000, "pool_objects_reused": 300, "dictionary_probes_sent": 100, "reads_after_end_of_message": 100, "closes_mid_compressed_message": 100, "closes_under_a_reader_blocked_in_the_transport": 30}
 		},
 		Assumptions: []string{
 			"not asserted: that objects are returned to the pools at all (leaking to the GC is safe)",
@@ -62,6 +65,7 @@ var (
 	c07Objs    = map[any]*poolObj{}
 	c07Vios    []fw.Vio
 	c07Puts    int64
+	c07BrPuts  int64
 	c07Reused  int64
 	c07Enabled atomic.Bool
 )
@@ -147,6 +151,13 @@ func c07PoolHook(kind, op string, obj interface{}) {
 				c07Violate("C07/pool-put-while-in-use/"+kind, fmt.Sprintf("a %s is put into its pool while another goroutine is inside %s with it", kind, what), stack)
 			}
 		}
+		// a connection's bufio.Reader: no goroutine may be inside a Read of the transport it wraps
+		if br, ok := obj.(*bufio.Reader); ok && kind == "bufioReader" {
+			if ar, ok := bufioUnderlying(br).(interface{ ActiveReads() int }); ok && ar.ActiveReads() > 0 {
+				c07Violate("C07/pool-put-while-in-use/bufioReader-in-transport-read", "a connection's bufio.Reader is put into the pool while a goroutine is still inside a Read of the connection's transport through it (what that read delivers lands in the buffer of the next connection that gets the object)", stack)
+			}
+			c07BrPuts++
+		}
 		o.pooled = true
 	case "get":
 		if o.gets > 0 || o.pooled {
@@ -182,6 +193,15 @@ func c07UseHook(c *websocket.Conn, what string, enter bool, objs ...interface{})
 			delete(o.users, g)
 		}
 	}
+}
+
+// bufioUnderlying returns the io.Reader a bufio.Reader reads from.
+func bufioUnderlying(br *bufio.Reader) io.Reader {
+	f := reflect.ValueOf(br).Elem().FieldByName("rd")
+	if !f.IsValid() {
+		return nil
+	}
+	return *(*io.Reader)(unsafe.Pointer(f.UnsafeAddr()))
 }
 
 func c07Setup() {
@@ -253,7 +273,7 @@ var c07Behaviours = []string{
 	"plain", "read-after-eof", "abandon-half-read+Close", "abandon-half-read+CloseNow", "protocol-error-mid-message",
 	"local-Close-mid-compressed", "local-CloseNow-mid-compressed", "ctx-expiry-mid-compressed", "peer-close-between-fragments",
 	"bfinal-messages", "close-while-compressed-write-blocked", "wsjson", "read-after-eof-then-others-read",
-	"reader-call-mid-message",
+	"reader-call-mid-message", "close-under-blocked-reader",
 }
 
 func c07Gen(tier string, seed int64) []fw.Case {
@@ -293,8 +313,8 @@ func c07Run(r *fw.R, d c07Desc) {
 	c07Mu.Lock()
 	vs := c07Vios
 	c07Vios = nil
-	puts, reused := c07Puts, c07Reused
-	c07Puts, c07Reused = 0, 0
+	puts, reused, brPuts := c07Puts, c07Reused, c07BrPuts
+	c07Puts, c07Reused, c07BrPuts = 0, 0, 0
 	// forget objects that are neither pooled nor in use (keeps the table small)
 	for k, o := range c07Objs {
 		if !o.pooled && len(o.users) == 0 {
@@ -305,6 +325,7 @@ func c07Run(r *fw.R, d c07Desc) {
 	for _, v := range vs {
 		r.Violate(v.Sig, v.What, v.Witness)
 	}
+	r.Count("connection_bufio_readers_put_checked_against_transport", brPuts)
 	r.Count("pool_puts_monitored", puts)
 	r.Count("pool_objects_reused", reused)
 	c19TakePool(r)
@@ -326,7 +347,8 @@ func c07ReadMsg(ctx context.Context, r *fw.R, c *websocket.Conn, k, m uint32, be
 		}
 		if e != nil {
 			if w := checkProvenance(data, k, m); w != "" {
-				r.Violate("C07/foreign-bytes-in-read/"+beh, fmt.Sprintf("connection %d (%s): a failed read of message %d had returned bytes that are not its own: %s", k, beh, m, w), "")
+				i := firstDiff(data, provPayload(k, m, len(data)))
+				r.Violate("C07/foreign-bytes-in-read/"+beh, fmt.Sprintf("connection %d (%s): a failed read of message %d had returned bytes that are not its own: %s", k, beh, m, w), fmt.Sprintf("read error: %v\nread buffer size %d, %d bytes returned in all\nreturned from byte %d on: %x\nexpected there:            %x", e, bufsz, len(data), i, data[i:min(len(data), i+48)], provPayload(k, m, len(data))[i:min(len(data), i+48)]))
 			}
 			return false, e
 		}
@@ -364,17 +386,22 @@ func c07Conn(r *fw.R, beh string, role Role, p wire.Params, seed uint64, success
 	if beh == "close-while-compressed-write-blocked" {
 		lib2peer.Capacity = 500
 	}
-	c, _, peerEnd, err := libConn(role, p, 1, lib2peer, xport.Plan{Seed: seed, ReadMax: []int{0, 0, 100, 1}[rng.Intn(4)], NoTap: true})
+	c, libEnd, peerEnd, err := libConn(role, p, 1, lib2peer, xport.Plan{Seed: seed, ReadMax: []int{0, 0, 100, 1}[rng.Intn(4)], NoTap: true})
 	if err != nil {
 		r.Violate("C07/attach-failed", err.Error(), "")
 		return
+	}
+	if beh == "close-under-blocked-reader" {
+		// a blocked transport read does not come back the instant another goroutine closes the transport
+		libEnd.Linger = time.Duration(1+rng.Intn(4)) * time.Millisecond
 	}
 	defer c.CloseNow()
 	defer peerEnd.Close()
 	c.SetReadLimit(1 << 20)
 	peer := newRawPeer(peerEnd, role, p, seed)
 	peer.AutoPong = true
-	peer.AutoClose = true
+	// (a peer that has sent part of a frame must not answer a Close frame: its answer would be that frame's payload)
+	peer.AutoClose = beh != "close-under-blocked-reader"
 	if beh != "close-while-compressed-write-blocked" {
 		peer.Start()
 	}
@@ -495,6 +522,50 @@ func c07Conn(r *fw.R, beh string, role Role, p wire.Params, seed uint64, success
 			}
 		})
 		c.Close(websocket.StatusNormalClosure, "")
+		return
+	case "close-under-blocked-reader":
+		// a reader is blocked in the transport (nothing, or part of a frame, arrives) when another goroutine
+		// closes the connection
+		for m := uint32(0); m < 2; m++ {
+			for _, f := range sendMsg(m, 50+rng.Intn(3000), p.Deflate && rng.Bool(), 1+rng.Intn(3), wire.EndSync) {
+				peer.Send(f)
+			}
+			if _, err := c07ReadMsg(ctx, r, c, k, m, beh, bufsz); err != nil {
+				r.Violate("C07/read-failed", fmt.Sprintf("connection %d: %v", k, err), "")
+				return
+			}
+		}
+		if rng.Bool() {
+			f := peer.Mask(wire.Data(wire.OpBinary, true, provPayload(k, 2, 400))).Bytes()
+			peer.SendBytes(f[:len(f)-1-rng.Intn(300)])
+		}
+		rctx, rc := context.WithCancel(ctx)
+		how := []int{0, 0, 2, 2, 0, 1}[rng.Intn(6)]
+		if how == 2 {
+			rc()
+			rctx, rc = context.WithTimeout(ctx, time.Duration(2+rng.Intn(4))*time.Millisecond)
+		}
+		done := make(chan struct{})
+		go func() {
+			defer close(done)
+			c07ReadMsg(rctx, r, c, k, 2, beh, bufsz)
+		}()
+		for i := 0; i < 2000 && libEnd.ActiveReads() == 0; i++ {
+			time.Sleep(100 * time.Microsecond)
+		}
+		if libEnd.ActiveReads() > 0 {
+			r.Count("closes_under_a_reader_blocked_in_the_transport", 1)
+		}
+		switch how {
+		case 0:
+			c.CloseNow()
+		case 1:
+			go func() { time.Sleep(3 * time.Millisecond); c.CloseNow() }()
+			c.Close(websocket.StatusNormalClosure, "")
+		}
+		<-done
+		rc()
+		outcome = []string{"CloseNow", "Close", "context-expiry"}[how]
 		return
 	case "close-while-compressed-write-blocked":
 		// nobody reads: a compressed write blocks in the transport, then the connection is closed under it
